@@ -1000,6 +1000,9 @@ func Body(args ...any) {
 	if fn != nil {
 		eval.Execute(fn, attr)
 	}
+	if attr.Type == nil {
+		attr.Type = &expr.Object{} // DSL that defines no attribute
+	}
 	attr.AddMeta("http:body")
 	setter(attr)
 }
